@@ -46,15 +46,20 @@ def preflight():
 def gen(seed: int, tier: str) -> dict[str, Any]:
     rng = random.Random(seed)
     mode = rng.choice(["session", "session", "routing", "handshake"])
-    return {"seed": seed, "tier": "S",
+    plan = {"seed": seed, "tier": "S",
             "config": {"mode": mode, "inner_len": rng.choice([1, 2, 3, 14, 15, 16, 17, 31, 32, 33, 100, 254]) if rng.random() < 0.6
                        else rng.randint(1, 254),
                        "user_id": rng.randint(1, 127), "user_pw": "pw%d" % rng.randrange(10 ** 6),
                        "dev_pw": "dev%d" % rng.randrange(10 ** 6), "n_sends": rng.randint(1, 4),
                        "hs_flips": sorted(rng.sample(range(50 * 8), 24)), "batch": 1,
                        # several handshakes on one SecureTunnel / SecureSession object (what a reconnect does)
-                       "reuse": rng.random() < 0.5, "reconnects": rng.choice([0, 1, 2, 3])},
+                       "reuse": rng.random() < 0.5, "reconnects": rng.choice([0, 1, 2, 3]),
+                       # installations where the user password and the device authentication password are the same string
+                       "same_pw": rng.random() < 0.15},
             "ops": []}
+    if plan["config"]["same_pw"]:
+        plan["config"]["dev_pw"] = plan["config"]["user_pw"]
+    return plan
 
 
 def _cemi(n: int, pid: int) -> bytes:
